@@ -6,8 +6,10 @@ import (
 	"math"
 	"math/big"
 	"reflect"
+	"sort"
 	"strings"
 	"testing"
+	"time"
 
 	"github.com/amzn/ion-go/ion"
 	"pgregory.net/rapid"
@@ -84,6 +86,62 @@ func normLoose(v model.Value) model.Value {
 		return model.Value{Kind: model.Null, IsNull: true, Ann: out.Ann}
 	}
 	return out
+}
+
+// nilShape records, for every slice and map reachable from v without passing
+// through an interface or an omitempty / annotations field, whether it is nil or
+// empty. Marshal writes nil as null and an empty collection as an empty
+// container, Unmarshal turns null into nil and an empty container into an empty
+// collection, so the round trip keeps the difference (only omitempty cannot).
+func nilShape(v reflect.Value, path string, out map[string]string) {
+	switch v.Kind() {
+	case reflect.Ptr:
+		if !v.IsNil() {
+			nilShape(v.Elem(), path+"*", out)
+		}
+	case reflect.Slice:
+		if v.IsNil() {
+			out[path] = "nil"
+			return
+		}
+		if v.Len() == 0 {
+			out[path] = "empty"
+		}
+		if v.Type().Elem().Kind() == reflect.Uint8 {
+			return
+		}
+		for i := 0; i < v.Len(); i++ {
+			nilShape(v.Index(i), fmt.Sprintf("%s[%d]", path, i), out)
+		}
+	case reflect.Array:
+		for i := 0; i < v.Len(); i++ {
+			nilShape(v.Index(i), fmt.Sprintf("%s[%d]", path, i), out)
+		}
+	case reflect.Map:
+		if v.IsNil() {
+			out[path] = "nil"
+			return
+		}
+		if v.Len() == 0 {
+			out[path] = "empty"
+		}
+		for _, k := range v.MapKeys() {
+			nilShape(v.MapIndex(k), fmt.Sprintf("%s[%q]", path, k.String()), out)
+		}
+	case reflect.Struct:
+		switch v.Type() {
+		case reflect.TypeOf(ion.Timestamp{}), reflect.TypeOf(time.Time{}), reflect.TypeOf(ion.Decimal{}), reflect.TypeOf(big.Int{}), reflect.TypeOf(ion.SymbolToken{}):
+			return
+		}
+		for i := 0; i < v.NumField(); i++ {
+			f := v.Type().Field(i)
+			tag := f.Tag.Get("ion")
+			if f.PkgPath != "" && !f.Anonymous || tag == "-" || strings.Contains(tag, ",omitempty") || strings.Contains(tag, ",annotations") {
+				continue
+			}
+			nilShape(v.Field(i), path+"."+f.Name, out)
+		}
+	}
 }
 
 func runC16(c C16Case) string {
@@ -272,6 +330,19 @@ func runC16(c C16Case) string {
 			drive.TimeAsInstant = false
 			if d := looseDiff(wantLoose, got); d != "" {
 				return fmt.Sprintf("Unmarshal(Marshal%s(v)) differs from v: %s\nround-tripped value denotes: %s\ntext: %q", strings.Title(format), d, got.String(), text1) + desc()
+			}
+			s1, s2 := map[string]string{}, map[string]string{}
+			nilShape(holder.Elem(), "v", s1)
+			nilShape(back.Elem(), "v", s2)
+			var paths []string
+			for p := range s1 {
+				paths = append(paths, p)
+			}
+			sort.Strings(paths)
+			for _, p := range paths {
+				if b, ok := s2[p]; ok && b != s1[p] {
+					return fmt.Sprintf("Unmarshal(Marshal%s(v)) differs from v: the collection at %s was %s and comes back %s\ntext: %q", strings.Title(format), p, s1[p], b, text1) + desc()
+				}
 			}
 		}
 		return ""
